@@ -152,14 +152,14 @@ Section GenTheorems.
 
   Notation cut := (cut_sealed h).
   Notation expanded := (expanded h cut).
-  Notation out_edges := (out_edges h true).
-  Notation path := (path h true cut).
+  Notation out_edges := (out_edges h (node_edges true)).
+  Notation path := (path h (node_edges true) cut).
 
   Definition keys_ok : Prop :=
     forall n e k, expanded n -> In e (out_edges n) -> In k (fst e) -> plain (esc k) = true.
   Definition files_ok : Prop :=
     forall c af, In c gens -> In af c -> plain (snd af) = true.
-  Definition all_unamb : Prop := forall n, unamb h true cut n.
+  Definition all_unamb : Prop := forall n, unamb h (node_edges true) cut n.
 
   Lemma path_keys : keys_ok -> forall a p c, path a p c -> Forall (fun k => plain (esc k) = true) p.
   Proof.
@@ -176,17 +176,17 @@ Section GenTheorems.
   (* the Sealer always terminates *)
   Theorem generated_total : forall root jd, exists l, generated esc h gens root jd = Some l.
   Proof.
-    intros. unfold generated. destruct (walk_correct h true cut root) as [evs [E _]].
+    intros. unfold generated. destruct (walk_correct h (node_edges true) cut root) as [evs [E _]].
     rewrite E. eauto.
   Qed.
 
   Lemma generated_inv root jd l e :
     generated esc h gens root jd = Some l -> In e l ->
-    exists evs pos af, walk h true cut root = Some evs /\ In (g_node e, pos) evs /\
+    exists evs pos af, walk h (node_edges true) cut root = Some evs /\ In (g_node e, pos) evs /\
       In af (gens_of h gens (g_node e)) /\ g_arg e = fst af /\ g_file e = snd af /\
       g_path e = gen_value esc jd pos (snd af).
   Proof.
-    unfold generated. destruct (walk h true cut root) as [evs|] eqn:E; [|discriminate].
+    unfold generated. destruct (walk h (node_edges true) cut root) as [evs|] eqn:E; [|discriminate].
     intros El Hin. inversion El; subst l. apply in_flat_map in Hin.
     destruct Hin as [[n pos] [Hev He]]. unfold entries_of in He. apply in_map_iff in He.
     destruct He as [af [<- Haf]]. simpl in *. exists evs, pos, af. repeat split; auto.
@@ -199,7 +199,7 @@ Section GenTheorems.
   Proof.
     intros K F root jd l e El Hin.
     destruct (generated_inv _ _ _ _ El Hin) as [evs [pos [af [Ew [Hev [Haf [_ [_ Hp]]]]]]]].
-    destruct (walk_correct h true cut root) as [evs' [Ew' [_ [_ Hpath]]]].
+    destruct (walk_correct h (node_edges true) cut root) as [evs' [Ew' [_ [_ Hpath]]]].
     rewrite Ew in Ew'. inversion Ew'; subst evs'.
     assert (Hk := path_keys K _ _ _ (Hpath _ _ Hev)).
     assert (Hf := gens_of_files F _ _ Haf).
@@ -215,7 +215,7 @@ Section GenTheorems.
     destruct (generated_inv _ _ _ _ El H1) as [evs [pos1 [af1 [Ew [Hev1 [Haf1 [_ [Hf1 Hp1]]]]]]]].
     destruct (generated_inv _ _ _ _ El H2) as [evs2 [pos2 [af2 [Ew2 [Hev2 [Haf2 [_ [Hf2 Hp2]]]]]]]].
     rewrite Ew in Ew2. inversion Ew2; subst evs2. clear Ew2.
-    destruct (walk_correct h true cut root) as [evs' [Ew' [Hnd [_ Hpath]]]].
+    destruct (walk_correct h (node_edges true) cut root) as [evs' [Ew' [Hnd [_ Hpath]]]].
     rewrite Ew in Ew'. inversion Ew'; subst evs'. clear Ew'.
     rewrite Hp1, Hp2 in Hp.
     rewrite !gen_value_plain in Hp;
@@ -224,7 +224,7 @@ Section GenTheorems.
     apply rel_comps_inj in Hc; auto. destruct Hc as [Epos Efile].
     apply Hne. rewrite Hf1, Hf2, Efile. f_equal.
     destruct (Nat.eq_dec (g_node e1) (g_node e2)) as [|Hn]; auto.
-    exfalso. exact (walk_positions_distinct h true cut U root evs _ _ _ _ Ew Hev1 Hev2 Hn Epos).
+    exfalso. exact (walk_positions_distinct h (node_edges true) cut U root evs _ _ _ _ Ew Hev1 Hev2 Hn Epos).
   Qed.
 
   (* the same file name on the same object: the same path (interpretation fixed in DESIGN.md) *)
@@ -236,7 +236,7 @@ Section GenTheorems.
     destruct (generated_inv _ _ _ _ El H1) as [evs [pos1 [af1 [Ew [Hev1 [_ [_ [Hf1 Hp1]]]]]]]].
     destruct (generated_inv _ _ _ _ El H2) as [evs2 [pos2 [af2 [Ew2 [Hev2 [_ [_ [Hf2 Hp2]]]]]]]].
     rewrite Ew in Ew2. inversion Ew2; subst evs2.
-    destruct (walk_correct h true cut root) as [evs' [Ew' [Hnd _]]].
+    destruct (walk_correct h (node_edges true) cut root) as [evs' [Ew' [Hnd _]]].
     rewrite Ew in Ew'. inversion Ew'; subst evs'.
     rewrite En in Hev1. rewrite (NoDup_fst_unique _ _ _ _ Hnd Hev1 Hev2) in Hp1. congruence.
   Qed.
@@ -246,8 +246,8 @@ Section GenTheorems.
     generated_fuel esc h gens fuel root jd = Some l -> generated esc h gens root jd = Some l.
   Proof.
     unfold generated_fuel, generated. intros fuel root jd l.
-    destruct (visit h true cut fuel [] root st0) as [st|] eqn:E; [|discriminate].
-    rewrite (walk_fuel_irrelevant h true cut _ _ _ E). auto.
+    destruct (visit h (node_edges true) cut fuel [] root st0) as [st|] eqn:E; [|discriminate].
+    rewrite (walk_fuel_irrelevant h (node_edges true) cut _ _ _ E). auto.
   Qed.
 
   (* ... and the layout below the job directory depends on the graph only *)
@@ -260,7 +260,7 @@ Section GenTheorems.
     exists rels, forall jd, generated esc h gens root jd = Some (map (place jd) rels).
   Proof.
     intros K F root. unfold generated.
-    destruct (walk_correct h true cut root) as [evs [Ew [_ [_ Hpath]]]]. rewrite Ew.
+    destruct (walk_correct h (node_edges true) cut root) as [evs [Ew [_ [_ Hpath]]]]. rewrite Ew.
     exists (flat_map (fun ev => map (fun af => (fst ev, fst af, snd af, rel_comps esc (snd ev) (snd af)))
                                     (gens_of h gens (fst ev))) evs).
     intros jd. f_equal.
@@ -314,7 +314,7 @@ Section Reflect.
     - split; [discriminate | intros [nd' [H _]]; discriminate].
   Qed.
 
-  Lemma out_edges_range n e : In e (out_edges h true n) -> (n < length h)%nat.
+  Lemma out_edges_range n e : In e (out_edges h (node_edges true) n) -> (n < length h)%nat.
   Proof.
     unfold out_edges. destruct (nth_error h n) eqn:E; [|intros []].
     intros _. apply nth_error_range. congruence.
@@ -326,9 +326,9 @@ Section Reflect.
     assert (Hn := out_edges_range _ _ H1).
     assert (Hb := H n ltac:(apply in_seq; lia)). unfold unamb_nodeb in Hb.
     rewrite forallb_forall in Hb.
-    assert (F1 : In e1 (filter (fun e => expandedb h (snd e)) (out_edges h true n)))
+    assert (F1 : In e1 (filter (fun e => expandedb h (snd e)) (out_edges h (node_edges true) n)))
       by (apply filter_In; split; auto; apply expandedb_spec; auto).
-    assert (F2 : In e2 (filter (fun e => expandedb h (snd e)) (out_edges h true n)))
+    assert (F2 : In e2 (filter (fun e => expandedb h (snd e)) (out_edges h (node_edges true) n)))
       by (apply filter_In; split; auto; apply expandedb_spec; auto).
     specialize (Hb e1 F1). apply andb_true_iff in Hb. destruct Hb as [Hne Hall].
     split.
@@ -538,3 +538,232 @@ Example bad_heaps_repaired :
      map g_path l = [ {| p_root := 1; p_parts := [[74;79;66]; k_out; s_d; [37;50;70;97;98;115]; s_otxt] |};
                       {| p_root := 1; p_parts := [[74;79;66]; k_out] |} ]).
 Proof. split; eexists; split; vm_compute; reflexivity. Qed.
+
+
+(* ================================================================================== *)
+(* all_unamb holds for every graph with well-formed names                              *)
+Local Open Scope nat_scope.
+(* ---- induction on values (nested lists) ----------------------------------------- *)
+Section ValueInd.
+  Variable P : value -> Prop.
+  Hypothesis Hnone : P VNone.
+  Hypothesis Hscalar : forall z, P (VScalar z).
+  Hypothesis Hstr : forall s, P (VStr s).
+  Hypothesis Href : forall n, P (VRef n).
+  Hypothesis Hlist : forall l, Forall P l -> P (VList l).
+  Hypothesis Hdict : forall l, Forall (fun kv => P (snd kv)) l -> P (VDict l).
+
+  Fixpoint value_ind2 (v : value) : P v :=
+    match v with
+    | VNone => Hnone
+    | VScalar z => Hscalar z
+    | VStr s => Hstr s
+    | VRef n => Href n
+    | VList l => Hlist l ((fix go (l : list value) : Forall P l :=
+                             match l with [] => Forall_nil _ | x :: l' => Forall_cons _ (value_ind2 x) (go l') end) l)
+    | VDict l => Hdict l ((fix go (l : list (str * value)) : Forall (fun kv => P (snd kv)) l :=
+                             match l with [] => Forall_nil _
+                                     | kv :: l' => Forall_cons _ (value_ind2 (snd kv)) (go l') end) l)
+    end.
+End ValueInd.
+
+Lemma nodup_keys_spec l : nodup_keys l = true -> NoDup l.
+Proof.
+  induction l as [|k l IH]; simpl; intros H; constructor.
+  - apply andb_true_iff in H. destruct H as [H _]. apply negb_true_iff in H.
+    intros Hin. assert (E : existsb (str_eqb k) l = true).
+    { apply existsb_exists. exists k. split; auto. apply str_eqb_eq; auto. }
+    congruence.
+  - apply andb_true_iff in H. destruct H; auto.
+Qed.
+
+(* ---- unfolding the nested fixpoints of edges_value --------------------------------- *)
+Fixpoint elist (rel : list str) (i : nat) (l : list value) : list edge :=
+  match l with [] => [] | x :: l' => edges_value (rel ++ [dec i]) x ++ elist rel (S i) l' end.
+Fixpoint edict (rel : list str) (l : list (str * value)) : list edge :=
+  match l with [] => [] | (k, x) :: l' => edges_value (rel ++ [k]) x ++ edict rel l' end.
+
+Lemma edges_value_list rel l : edges_value rel (VList l) = elist rel 0 l.
+Proof. simpl. generalize 0%nat. induction l as [|x l IH]; intros i; simpl; auto. f_equal. apply IH. Qed.
+Lemma edges_value_dict rel l : edges_value rel (VDict l) = edict rel l.
+Proof. simpl. induction l as [|[k x] l IH]; simpl; auto. f_equal. apply IH. Qed.
+
+Lemma elist_In rel : forall l i e, In e (elist rel i l) <->
+  exists j x, nth_error l j = Some x /\ In e (edges_value (rel ++ [dec (i + j)]) x).
+Proof.
+  induction l as [|x l IH]; intros i e; simpl.
+  - split; [tauto|]. intros [j [y [H _]]]. destruct j; discriminate.
+  - rewrite in_app_iff, IH. split.
+    + intros [H|[j [y [Hn Hy]]]].
+      * exists 0, x. rewrite Nat.add_0_r. auto.
+      * exists (S j), y. rewrite Nat.add_succ_r. auto.
+    + intros [[|j] [y [Hn Hy]]].
+      * inversion Hn; subst. rewrite Nat.add_0_r in Hy. auto.
+      * right. exists j, y. rewrite Nat.add_succ_r in Hy. auto.
+Qed.
+
+Lemma edict_In rel : forall l e, In e (edict rel l) <->
+  exists k x, In (k, x) l /\ In e (edges_value (rel ++ [k]) x).
+Proof.
+  induction l as [|[k x] l IH]; intros e; simpl.
+  - split; [tauto|]. intros [k [x [[] _]]].
+  - rewrite in_app_iff, IH. split.
+    + intros [H|[k' [y [Hn Hy]]]]; [exists k, x; auto | exists k', y; auto].
+    + intros [k' [y [[Hn|Hn] Hy]]]; [inversion Hn; subst; auto | right; exists k', y; auto].
+Qed.
+
+(* every label of edges_value rel v extends rel *)
+Lemma edges_value_prefix : forall v rel e, In e (edges_value rel v) -> prefix rel (fst e).
+Proof.
+  induction v as [| | |n|l IH|l IH] using value_ind2; intros rel e He; try (simpl in He; tauto).
+  - simpl in He. destruct He as [<-|[]]. exists []. simpl. rewrite List.app_nil_r. auto.
+  - rewrite edges_value_list in He. apply elist_In in He. destruct He as [j [x [Hn He]]].
+    rewrite Forall_forall in IH. destruct (IH x (nth_error_In _ _ Hn) _ _ He) as [c Hc].
+    exists ([dec (0 + j)] ++ c). rewrite Hc, <- List.app_assoc. auto.
+  - rewrite edges_value_dict in He. apply edict_In in He. destruct He as [k [x [Hn He]]].
+    rewrite Forall_forall in IH. destruct (IH (k, x) Hn _ _ He) as [c Hc]. simpl in Hc.
+    exists ([k] ++ c). rewrite Hc, <- List.app_assoc. auto.
+Qed.
+
+(* two labels below rel ++ [a] and rel ++ [b], one a prefix of the other: a = b *)
+Lemma prefix_same_key (rel : list str) a b l1 l2 :
+  prefix (rel ++ [a]) l1 -> prefix (rel ++ [b]) l2 -> prefix l1 l2 -> a = b.
+Proof.
+  intros [c1 ->] [c2 ->] [c E].
+  rewrite <- !List.app_assoc in E. apply app_inv_head in E. simpl in E. inversion E; auto.
+Qed.
+
+Lemma edges_value_unamb : forall v rel, dict_ok v = true ->
+  forall e1 e2, In e1 (edges_value rel v) -> In e2 (edges_value rel v) ->
+                prefix (fst e1) (fst e2) -> e1 = e2.
+Proof.
+  induction v as [| | |n|l IH|l IH] using value_ind2; intros rel Hok e1 e2 H1 H2 Hp;
+    try (simpl in H1; tauto).
+  - simpl in H1, H2. destruct H1 as [<-|[]]. destruct H2 as [<-|[]]. auto.
+  - rewrite edges_value_list in H1, H2. apply elist_In in H1, H2.
+    destruct H1 as [j1 [x1 [Hn1 He1]]]. destruct H2 as [j2 [x2 [Hn2 He2]]].
+    assert (Ej : dec (0 + j1) = dec (0 + j2)).
+    { eapply prefix_same_key; [eapply edges_value_prefix; eauto | eapply edges_value_prefix; eauto | auto]. }
+    apply dec_inj in Ej. simpl in Ej. subst j2. rewrite Hn1 in Hn2. inversion Hn2; subst x2.
+    rewrite Forall_forall in IH. simpl in Hok. rewrite forallb_forall in Hok.
+    eapply (IH x1 (nth_error_In _ _ Hn1)); eauto. apply Hok. eapply nth_error_In; eauto.
+  - rewrite edges_value_dict in H1, H2. apply edict_In in H1, H2.
+    destruct H1 as [k1 [x1 [Hn1 He1]]]. destruct H2 as [k2 [x2 [Hn2 He2]]].
+    assert (Ek : k1 = k2).
+    { eapply prefix_same_key; [eapply edges_value_prefix; eauto | eapply edges_value_prefix; eauto | auto]. }
+    subst k2. simpl in Hok. apply andb_true_iff in Hok. destruct Hok as [Hnd Hall].
+    apply nodup_keys_spec in Hnd.
+    assert (Ex : x1 = x2) by (eapply NoDup_fst_unique; eauto). subst x2.
+    rewrite Forall_forall in IH. rewrite forallb_forall in Hall.
+    eapply (IH (k1, x1) Hn1); eauto.
+Qed.
+
+(* ---- the edges of a node ------------------------------------------------------------ *)
+Lemma mapi_from_In {A B} (f : nat -> A -> B) : forall l i y,
+  In y (mapi_from f i l) <-> exists j x, nth_error l j = Some x /\ y = f (i + j) x.
+Proof.
+  induction l as [|x l IH]; intros i y; simpl.
+  - split; [tauto|]. intros [j [z [H _]]]. destruct j; discriminate.
+  - rewrite IH. split.
+    + intros [<-|[j [z [Hn ->]]]].
+      * exists 0, x. rewrite Nat.add_0_r. auto.
+      * exists (S j), z. rewrite Nat.add_succ_r. auto.
+    + intros [[|j] [z [Hn ->]]].
+      * inversion Hn; subst. rewrite Nat.add_0_r. auto.
+      * right. exists j, z. rewrite Nat.add_succ_r. auto.
+Qed.
+
+Inductive edge_kind (n : nat) (nd : node) (e : edge) : Prop :=
+| EK_field : forall kv c, In kv (fields nd) -> In e (edges_value [fst kv] (snd kv)) ->
+                          fst e = fst kv :: c -> edge_kind n nd e
+| EK_pre : forall j t, nth_error (pre nd) j = Some t -> e = ([k_pre; dec j], t) -> edge_kind n nd e
+| EK_init : forall j t, nth_error (init nd) j = Some t -> e = ([k_init; dec j], t) -> edge_kind n nd e
+| EK_task : forall t, task nd = Some t -> t <> n -> e = ([], t) -> edge_kind n nd e.
+
+Lemma node_edges_kind n nd e : In e (node_edges true n nd) -> edge_kind n nd e.
+Proof.
+  unfold node_edges. rewrite !in_app_iff. intros [H|[H|[H|H]]].
+  - unfold edges_fields in H. apply in_flat_map in H. destruct H as [kv [Hkv He]].
+    destruct (edges_value_prefix _ _ _ He) as [c Hc]. eapply EK_field; eauto.
+  - unfold edges_tasks in H. apply mapi_from_In in H. destruct H as [j [t [Hn ->]]]. eapply EK_pre; eauto.
+  - unfold edges_tasks in H. apply mapi_from_In in H. destruct H as [j [t [Hn ->]]]. eapply EK_init; eauto.
+  - destruct (task nd) as [t|] eqn:Et; [|destruct H].
+    destruct (Nat.eqb t n) eqn:En; [destruct H|]. destruct H as [<-|[]].
+    apply Nat.eqb_neq in En. eapply EK_task; eauto.
+Qed.
+
+Lemma prefix_cons {A} (a b : A) l1 l2 : prefix (a :: l1) (b :: l2) -> a = b /\ prefix l1 l2.
+Proof. intros [c E]. inversion E; subst. split; auto. exists c; auto. Qed.
+
+Lemma k_pre_init : k_pre <> k_init. Proof. discriminate. Qed.
+
+Theorem names_wf_unamb h : names_wf h -> task_targets_cut h -> all_unamb h.
+Proof.
+  intros W T n e1 e2 H1 H2 X1 X2.
+  unfold out_edges in H1, H2. destruct (nth_error h n) as [nd|] eqn:En; [|destruct H1].
+  destruct (W n nd En) as [Nd [Npre [Ninit Hdict]]].
+  apply node_edges_kind in H1, H2.
+  assert (NT : forall (e : edge) t, task nd = Some t -> t <> n -> e = (([] : list str), t) -> expanded h (cut_sealed h) (snd e) -> False).
+  { intros e t Et Hne -> Hx. exact (T n nd t En Et Hne Hx). }
+  split.
+  - destruct H1 as [kv c _ _ Hc | j t _ -> | j t _ -> | t Et Hne He]; try (rewrite Hc); try discriminate.
+    exfalso; eauto.
+  - intros Hp.
+    destruct H1 as [kv1 c1 Hkv1 He1 Hc1 | j1 t1 Hn1 E1 | j1 t1 Hn1 E1 | t1 Et1 Hne1 E1];
+      [| | |exfalso; eauto];
+    (destruct H2 as [kv2 c2 Hkv2 He2 Hc2 | j2 t2 Hn2 E2 | j2 t2 Hn2 E2 | t2 Et2 Hne2 E2];
+      [| | |exfalso; eauto]); subst; simpl in *.
+    + (* field / field *)
+      assert (Hp' := Hp). rewrite Hc1, Hc2 in Hp'. apply prefix_cons in Hp'. destruct Hp' as [Ek _].
+      assert (Ekv : kv1 = kv2).
+      { destruct kv1 as [a b1], kv2 as [a' b2]. simpl in Ek. subst a'. f_equal.
+        eapply NoDup_fst_unique; eauto. }
+      subst kv2. eapply edges_value_unamb; eauto.
+    + rewrite Hc1 in Hp. apply prefix_cons in Hp. destruct Hp as [Ek _].
+      exfalso. apply Npre. rewrite <- Ek. apply in_map; auto.
+    + rewrite Hc1 in Hp. apply prefix_cons in Hp. destruct Hp as [Ek _].
+      exfalso. apply Ninit. rewrite <- Ek. apply in_map; auto.
+    + rewrite Hc2 in Hp. apply prefix_cons in Hp. destruct Hp as [Ek _].
+      exfalso. apply Npre. rewrite Ek. apply in_map; auto.
+    + apply prefix_cons in Hp. destruct Hp as [_ Hp]. apply prefix_cons in Hp. destruct Hp as [Ej _].
+      apply dec_inj in Ej. subst j2. congruence.
+    + apply prefix_cons in Hp. destruct Hp as [Ek _]. exfalso. apply k_pre_init; auto.
+    + rewrite Hc2 in Hp. apply prefix_cons in Hp. destruct Hp as [Ek _].
+      exfalso. apply Ninit. rewrite Ek. apply in_map; auto.
+    + apply prefix_cons in Hp. destruct Hp as [Ek _]. exfalso. apply k_pre_init; auto.
+    + apply prefix_cons in Hp. destruct Hp as [_ Hp]. apply prefix_cons in Hp. destruct Hp as [Ej _].
+      apply dec_inj in Ej. subst j2. congruence.
+Qed.
+
+
+(* decidable forms *)
+Lemma names_wfb_sound h : names_wfb h = true -> names_wf h.
+Proof.
+  unfold names_wfb. rewrite forallb_forall. intros H n nd En.
+  specialize (H nd (nth_error_In _ _ En)). unfold node_names_okb in H.
+  rewrite !andb_true_iff, !negb_true_iff in H. destruct H as [[[A B] C] D].
+  assert (G : forall k l, existsb (str_eqb k) l = false -> ~ In k l).
+  { intros k l E Hin. assert (X : existsb (str_eqb k) l = true).
+    { apply existsb_exists. exists k. split; auto. apply str_eqb_eq; auto. } congruence. }
+  split; [apply nodup_keys_spec; auto|]. split; [apply G; auto|]. split; [apply G; auto|].
+  rewrite forallb_forall in D. auto.
+Qed.
+
+Lemma task_targets_cutb_sound h : task_targets_cutb h = true -> task_targets_cut h.
+Proof.
+  unfold task_targets_cutb, task_targets_cut. rewrite forallb_forall. intros H n nd t En Et Hne Hx.
+  assert (Hn : n < length h) by (apply nth_error_range; congruence).
+  specialize (H n ltac:(apply in_seq; lia)). rewrite En, Et in H.
+  apply orb_true_iff in H. destruct H as [H|H].
+  - apply Nat.eqb_eq in H. auto.
+  - apply negb_true_iff in H. apply expandedb_spec in Hx. congruence.
+Qed.
+
+Theorem distinct_wf : forall h gens root jd l e1 e2,
+  names_wf h -> task_targets_cut h -> files_ok gens ->
+  generated esc_fix h gens root jd = Some l -> In e1 l -> In e2 l ->
+  (g_node e1, g_file e1) <> (g_node e2, g_file e2) -> g_path e1 <> g_path e2.
+Proof. intros h gens root jd l e1 e2 W T. apply distinct_fix. apply names_wf_unamb; auto. Qed.
+
+Example ex_names_wf : names_wf ex_heap /\ task_targets_cut ex_heap.
+Proof. split; [apply names_wfb_sound | apply task_targets_cutb_sound]; vm_compute; reflexivity. Qed.
